@@ -27,6 +27,7 @@ var parallelPool sync.Pool
 // getParallelState returns a pooled or new parallelState sized for the given dimensions.
 func getParallelState(numWorkers, mbW, mbH int, useDerr bool) *parallelState {
 	if v := parallelPool.Get(); v != nil {
+		verifhook.Pool("lossy.parallelPool", true)
 		ps := v.(*parallelState)
 		// Check if existing state is large enough.
 		if len(ps.workers) >= numWorkers && len(ps.rs.rows) >= mbH && len(ps.topY) >= mbW*16 && len(ps.topNz) >= mbW {
@@ -181,6 +182,7 @@ func (enc *VP8Encoder) encodeFrameParallel(stats *ProbaStats) {
 	// overhead — beyond 6 workers the pipeline depth (3 rows) limits
 	// parallelism and extra goroutines just add sync contention.
 	numWorkers := runtime.GOMAXPROCS(0)
+	numWorkers = verifhook.Workers("lossy.encodeFrameParallel", numWorkers)
 	if numWorkers > 6 {
 		numWorkers = 6
 	}
